@@ -223,6 +223,8 @@ func checkAuthBits(c *km.Ctx, s *km.Sem, checkAuth *ssa.Function, rule string) {
 		c.R.AnchorLost(rule, sprintf("credential-bit grants in checkAuth (found %d, expected 3)", nBits))
 	}
 
+	checkIPRestrictedHelper(c, s, rule)
+
 	// --- success returns
 	for _, rc := range s.RetCases(checkAuth) {
 		if len(rc.Ret.Results) != 2 || !km.IsNilConst(rc.Ret.Results[1]) {
@@ -305,4 +307,87 @@ func allocHasFieldStoreOf(a *ssa.Alloc, field string, val int64) bool {
 		}
 	}
 	return false
+}
+
+// checkIPRestrictedHelper: the IP-certificate helper admits a client only when the TCP peer address (not a
+// header) lies in the certificate's netblocks and the name is a configured automation identity.
+func checkIPRestrictedHelper(c *km.Ctx, s *km.Sem, rule string) {
+	fn := c.MustFunc(rule, "cmd/keymasterd", "(*RuntimeState).getUsernameIfIPRestricted")
+	if fn == nil {
+		return
+	}
+	verify := certgenPkg + ".VerifyIPRestrictedX509CertIP"
+	n := 0
+	for _, ci := range km.CallsIn(fn) {
+		if km.CalleeFull(ci.Common()) != verify {
+			continue
+		}
+		n++
+		addr := km.Unwrap(ci.Common().Args[1])
+		x, path, ok := km.FieldPath(addr)
+		good := ok && path == "RemoteAddr" && km.NamedTypeOf(x.Type()) == "net/http.Request"
+		c.R.Add(rule, km.FuncName(fn), "peer address given to VerifyIPRestrictedX509CertIP", posOf(c, ci), "the address checked against the netblocks is the TCP peer address r.RemoteAddr (never a client-supplied header)", km.ValStr(addr), good)
+		// the certificate is the verified leaf
+		cert := km.Unwrap(ci.Common().Args[0])
+		okCert := isVerifiedLeaf(cert)
+		c.R.Add(rule, km.FuncName(fn), "certificate given to VerifyIPRestrictedX509CertIP", posOf(c, ci), "the certificate checked is VerifiedChains[0][0]", km.ValStr(cert), okCert)
+	}
+	if n == 0 {
+		c.R.AnchorLost(rule, "call of VerifyIPRestrictedX509CertIP in getUsernameIfIPRestricted")
+		return
+	}
+	validIP := km.Prim{Name: "validIP", Direct: func(f km.Fact) bool {
+		cl, idx := callRes(f.X)
+		return f.Op == token.ILLEGAL && f.Pol && cl != nil && idx == 0 && km.CalleeFull(cl.Common()) == verify
+	}}
+	verifyErrNil := primErrNil("verify err==nil", verify, 1)
+	autoOK := km.Prim{Name: "isAutomationUser", Direct: func(f km.Fact) bool {
+		cl, idx := callRes(f.X)
+		return f.Op == token.ILLEGAL && f.Pol && cl != nil && idx == 0 && km.CalleeFull(cl.Common()) == RS+"isAutomationUser"
+	}}
+	autoErrNil := primErrNil("isAutomationUser err==nil", RS+"isAutomationUser", 1)
+	for _, rc := range s.RetCases(fn) {
+		if len(rc.Ret.Results) != 4 || !km.IsNilConst(rc.Ret.Results[2]) || !km.IsNilConst(rc.Ret.Results[3]) {
+			continue
+		}
+		var missing []string
+		for _, p := range []km.Prim{validIP, verifyErrNil, autoOK, autoErrNil} {
+			if !rc.State.All(func(k km.Conj) bool { return s.Holds(k, p) }) {
+				missing = append(missing, p.Name)
+			}
+		}
+		c.R.Add(rule, km.FuncName(fn), "success return of the IP-certificate helper", posOf(c, rc.Ret), "peer inside the certificate's netblocks ∧ no decode error ∧ name is an automation identity", sprintf("missing=%v", missing), len(missing) == 0)
+	}
+}
+
+// isVerifiedLeaf: v is VerifiedChains[0][0] (load of IndexAddr(load of IndexAddr(param/field VerifiedChains,0),0))
+func isVerifiedLeaf(v ssa.Value) bool {
+	u, ok := v.(*ssa.UnOp)
+	if !ok || u.Op != token.MUL {
+		return false
+	}
+	ia, ok := u.X.(*ssa.IndexAddr)
+	if !ok {
+		return false
+	}
+	if i, ok := km.ConstInt(ia.Index); !ok || i != 0 {
+		return false
+	}
+	u2, ok := ia.X.(*ssa.UnOp)
+	if !ok || u2.Op != token.MUL {
+		return false
+	}
+	ia2, ok := u2.X.(*ssa.IndexAddr)
+	if !ok {
+		return false
+	}
+	if i, ok := km.ConstInt(ia2.Index); !ok || i != 0 {
+		return false
+	}
+	switch x := ia2.X.(type) {
+	case *ssa.Parameter:
+		return strings.Contains(x.Name(), "Chains") || strings.Contains(x.Type().String(), "x509.Certificate")
+	default:
+		return mentionsField(ia2.X, "VerifiedChains")
+	}
 }
